@@ -226,6 +226,14 @@ def cex_to_program(cls, steps):
         except ValueError:
             continue
         ops = ths.setdefault(t, [])
+        if act in ('CallLock', 'CallGetVersion', 'CallTryLock', 'CallPrepare') and cur.get(t, ('', 0))[0] == 'C':
+            # the model's PrepareRead came back without the lock; in the real run it may have had to take it: the composite
+            # guard is destroyed (one more call, one more quantum) before the thread asks again
+            ops.append('U:c%d' % cur[t][1])
+            sched.append(t)
+            if og.get(t, ('', 0))[0] == 'c':
+                og.pop(t)
+            cur.pop(t)
         if act == 'CallLock':
             m = args[1]
             k = new()
@@ -252,13 +260,19 @@ def cex_to_program(cls, steps):
             og[t] = ('o', k)
             ops.append('GV:o%d:1' % k)
         elif act == 'CallVerify':
+            if t not in og:
+                return None, None
             kind, k = og[t]
             ops.append(('VV:o%d' if kind == 'o' else 'CV:c%d') % k)
         elif act == 'CallCVerify':
             ops.append('CV:c%d' % cur[t][1])
         elif act == 'CallTryLock':
             m = args[1]
+            if t not in og:
+                return None, None
             kind, k = og[t]
+            if kind != 'o':
+                return None, None          # the model lets a version sampled by PrepareRead be used for TryLock*; the API has no such call
             h = new()
             ops.append('%s:o%d:%s%d' % ({'S': 'TS', 'SIX': 'TI', 'X': 'TX'}[m], k, pre[m], h))
             cur[t] = (m, h)          # if the try fails in the real run the later U is a no-op
@@ -782,8 +796,8 @@ def walk_config(cls, tier):
     if cls == 'pess':
         return ('w_t2o2' if q else 'w_t3o1', dict(MO='<- MOlearnt', Threads={1, 2} if q else {1, 2, 3}, MaxOps=2 if q else 1, WithHB=False), [])
     if cls == 'opt':
-        return ('w_t2o1' if q else 'w_t2o2', dict(MO='<- MOlearnt', VHi=1, VLo=3, Retry=1, SetVers='<- SV', WithOpt=True, Threads={1, 2},
-                                                   MaxOps=1 if q else 2, WithHB=False), ['SV == {<<0, 0>>, <<0, 2>>}'])
+        return ('w_t2o1' if q else 'w_t2o2', dict(MO='<- MOlearnt', VHi=1, VLo=8, Retry=1, SetVers='<- SV', WithOpt=True, Threads={1, 2},
+                                                   MaxOps=1 if q else 2, WithHB=False), ['SV == {<<0, 0>>, <<0, 2>>}'])    # VLo: no wrap-around within a walk
     return ('w_t2o1' if q else 'w_t2o2', dict(MO='<- MOlearnt', WithConv=True, Allowed='<- AllM', Threads={1, 2}, MaxOps=1 if q else 2,
                                                NNodes=2 if q else 4, WithHB=False), ['AllM == [t \\in Threads |-> {"S", "SIX", "X"}]'])
 
@@ -940,6 +954,7 @@ def model_walks(cls, tier, mo, seed=0):
                             'event': (g2[x['hist']][0][x['line']] if x['line'] < len(g2[x['hist']][0]) else None)} for x in rej2[:5]],
            'states': st1['distinct'] + st2['distinct'], 'transitions': st1['states'] + st2['states'],
            'events': st1['events'] + st2['events'], 'wall': round(time.time() - t0, 1),
+           'not_ok': [{'program': ptext[e.prog], 'status': e.status, 'schedule': e.sched[:200]} for e in execs if e.status not in ('ok', 'diverged')][:4],
            'sample': {'path': paths[0][:24], 'program': progs[0] if progs else None}}
     json.dump(res, open(cp, 'w'))
     import shutil
